@@ -36,7 +36,7 @@ ENGINE_KINDS = ('start_task', 'on_action_complete', 'start_workflow')
 
 def cases(seed, tier):
     rng = random.Random('c06-%s' % seed)
-    n_prog = 40 if tier == 'quick' else 360
+    n_prog = 40 if tier == 'quick' else 200
     out = []
     for i in range(n_prog):
         prng = random.Random(rng.getrandbits(64))
